@@ -441,4 +441,126 @@ U_RLC = Unit(P + '/--rlc-load and --trap-load round trip', ['Series_RLC_Load.as_
              t_rlc_trap, SCH,
              canaries=[Canary('rlc-fields-in-the-wrong-order', 'Series_RLC_Load.as_cmdline', _RlcOrder, [P + '/--rlc-load round trip/'])])
 
-UNITS = [U_WIRE, U_ARC, U_HELIX, U_TAPER, U_LOAD, U_EXC, U_MEDIUM, U_RLC]
+
+
+# ---------------------------------------------------------------- --attach-load lines of a lumped load
+ATT_SHAPE = (2, 1)          # pulses per object of the shape-bounded model (two objects)
+
+
+def t_attach_writer(eng):
+    """_Load.as_cmdline_load_attach on a model of two objects with symbolic, distinct tags (object order = tag order,
+    as Geo_Container keeps it), 2 + 1 pulses with symbolic numbers, and every subset of the pulses as the load's
+    attachment; both writing styles.  Every written line goes through the real reader (body of main's loop over
+    args.attach_load); what reaches Mininec.register_load is interpreted with register_load's contract (C17):
+      (load, k)         the pulse with absolute index k          (load, None)      every pulse of the antenna
+      (load, k, tag)    the k-th pulse of the object `tag`       (load, None, tag) every pulse of the object `tag`
+    Contract: the written lines attach exactly the load's pulses, each once, under the load's command-line number."""
+    name = P + '/--attach-load lines'
+    tags = [fresh_int('tagA'), fresh_int('tagB')]
+    eng.assume(b_and(r_cmp('>', tags[0], 0), r_cmp('<', tags[0], tags[1])))
+    m = SObj('Mininec', label='m')
+    gc = SObj('Geo_Container', label='geo')
+    m.fields['geo'] = gc
+    objs, pulses = [], []
+    idx0 = fresh_int('idx0')
+    eng.assume(r_cmp('>=', idx0, 0))
+    k = 0
+    for oi, cnt in enumerate(ATT_SHAPE):
+        g = SObj('Wire', label='obj%d' % oi)
+        g.fields.update({'tag': tags[oi], 'n': oi})
+        mine = []
+        for j in range(cnt):
+            pu = SObj('Pulse', label='p%d%d' % (oi, j))
+            pu.fields.update({'geobj': g, 'n': j, 'idx': r_add(idx0, k)})
+            k += 1
+            mine.append(pu)
+        g.fields['pulses'] = SList([('conc', list(mine))])
+        objs.append(g)
+        pulses.extend(mine)
+    from .common import distinct
+    distinct(eng, *objs)
+    distinct(eng, *pulses)
+    eng.summaries['Geo_Container.__len__'] = lambda e, a, kw: len(objs)
+    eng.summaries['Geo_Container.__iter__'] = lambda e, a, kw: SList([('conc', list(objs))])
+    sel = eng.choose(2 ** len(pulses))
+    chosen = [pu for b, pu in enumerate(pulses) if sel >> b & 1]
+    by_geo = eng.choose(2) == 1
+    ld = SObj('Impedance_Load', label='load')
+    ld.fields['pulses'] = SList([('conc', list(chosen))])
+    lnum = fresh_int('lnum')
+    eng.assume(r_cmp('>=', lnum, 1))
+    eng.summaries['_Load.cmdline_number'] = lambda e, a, kw: lnum
+    text = eng.call_qual('_Load.as_cmdline_load_attach', [ld, m, by_geo])
+    ls = lines_of(text) if isinstance(text, AStr) else []
+    eng.cover('attach-writer-%d-%d' % (sel, by_geo))
+    # read every line back
+    loop = MS.loop_of(eng, 'args.attach_load')
+    nl = fresh_int('nloads')
+    eng.assume(r_cmp('>=', nl, lnum))
+    loads = SList([('seq', SSeq(nl, lambda i: SObj('Impedance_Load', eng.uf('load.at', z3.IntSort(), z3.IntSort())(term(i)), label='ld'), 'loads'))])
+    want_load = loads.chunks[0][1].at(r_sub(lnum, 1)).ident
+    count = {id(pu): 0 for pu in pulses}
+    okload = True
+    for line in ls:
+        nm, value = option_value(line)
+        if nm != '--attach-load':
+            eng.oblige(name + '/only---attach-load-lines-are-written', False, detail=nm)
+            return
+        regs = []
+        eng.summaries['Mininec.register_load'] = lambda e, a, kw, regs=regs: regs.append(list(a))
+        env = {'x': value, 'm': SObj('Mininec', label='m2'), 'loads': loads, 'used_loads': SSet(None),
+               'f_err': AStr([('lit', '<stderr>')])}
+        out = MS.run_stmts(eng, loop.body, env)
+        if out.kind != 'normal' or len(regs) != 1:
+            eng.oblige(name + '/every-written-line-is-accepted-by-the-reader', False, detail='%s %s' % (out.kind, out.exc))
+            return
+        a = regs[0]
+        okload = b_and(okload, SV(a[1].ident == want_load, 'bool'))
+        pk = a[2]
+        tg = a[3] if len(a) > 3 else None
+        for pu in pulses:
+            g = pu.fields['geobj']
+            if tg is None:
+                hit = True if pk is None else r_cmp('==', pk, pu.fields['idx'])
+            else:
+                same = r_cmp('==', tg, g.fields['tag'])
+                hit = same if pk is None else b_and(same, r_cmp('==', pk, pu.fields['n']))
+            if eng.decide(eng.truth(hit)):
+                count[id(pu)] += 1
+    eng.oblige(name + '/every-written-line-is-accepted-by-the-reader', True)
+    eng.oblige(name + '/lines-name-the-loads-own-command-line-number', okload)
+    for pu in pulses:
+        want = 1 if any(pu is c for c in chosen) else 0
+        eng.oblige(name + '/the-lines-attach-exactly-the-loads-pulses,-each-once', count[id(pu)] == want,
+                   detail='%s attached %d times, expected %d' % (pu.label, count[id(pu)], want))
+
+
+class _AllByPosition(ast.NodeTransformer):
+    """write the position of the object in the container instead of its tag"""
+
+    def visit_For(self, node):
+        self.generic_visit(node)
+        if 'sorted' in ast.unparse(node.iter) and 'geo_all' in ast.unparse(node.iter):
+            new = ast.parse("for w in sorted (geo_all, key = lambda w: w.tag):\n"
+                            "    r.append ('--attach-load=%d,all,%d' % (lnum, w.n + 1))").body[0]
+            return new
+        return node
+
+
+class _PulseNotOneBased(ast.NodeTransformer):
+    def visit_BinOp(self, node):
+        self.generic_visit(node)
+        if ast.unparse(node).replace(' ', '') == 'pulse.idx+1':
+            return node.left
+        return node
+
+
+U_ATTW = Unit(P + '/--attach-load lines', ['_Load.as_cmdline_load_attach', 'main'], t_attach_writer, SCH,
+              slices={'main': 'body of the loop over args.attach_load'},
+              notes='bounded(shape): two objects with 2 + 1 pulses, every subset attached; tags, pulse numbers and load number symbolic',
+              canaries=[Canary('all-of-object-line-names-the-position-not-the-tag', '_Load.as_cmdline_load_attach', _AllByPosition,
+                               [P + '/--attach-load lines/the-lines-attach']),
+                        Canary('absolute-pulse-number-not-1-based', '_Load.as_cmdline_load_attach', _PulseNotOneBased,
+                               [P + '/--attach-load lines/the-lines-attach'])])
+
+UNITS = [U_WIRE, U_ARC, U_HELIX, U_TAPER, U_LOAD, U_EXC, U_MEDIUM, U_RLC, U_ATTW]
